@@ -188,6 +188,55 @@ def check(run):
                     if outs[0] != mine:
                         kk = [x for x in mine if outs[0].get(x) != mine[x]][0]
                         run.violation('cell %s differs between this process and PYTHONHASHSEED=1: %s vs %s' % (kk, mine[kk], outs[0].get(kk)), dict(case, cell=kk))
+        # ---- array-fit templates: an array formula whose result has another shape than its range, every pair of small shapes --------
+        # (a plain reference is fitted by Ranges.set_value, a computed result by Array.reshape; equal element counts with
+        #  different shapes are known finding fit-sizeeq of C05 and left out)
+        shapes = [(1, 1), (1, 2), (2, 1), (1, 3), (3, 1), (2, 2), (2, 3), (3, 2)]
+        combos = [(d_, s_) for d_ in shapes for s_ in shapes if d_ != (1, 1) and not (d_[0] * d_[1] == s_[0] * s_[1] and d_ != s_)]
+        if quick:
+            combos = rnd.sample(combos, 24)
+        for (R, C), (h, w) in combos:
+            for form in (('ref', 'name', 'times1') if not quick else (rnd.choice(['ref', 'name']), 'times1')):
+                wb = bookgen.WB()
+                wb.sheets.append(('b1.xlsx', 'S1'))
+                for i in range(h):
+                    for j in range(w):
+                        wb.cells[(0, 1 + i, 1 + j)] = ('v', rnd.choice([1, 2, 3, 5, 7, 0.5, 'ab', True]) if rnd.random() < 0.9 else bookgen.Err('#DIV/0!'))
+                src = ('ref', (0, 1, h, 1, w))
+                if form == 'name':
+                    wb.names['SRC'] = ('b1.xlsx', src)
+                e = {'ref': src, 'name': ('name', 'SRC'), 'times1': ('bin', '&', src, ('lit', ''))}[form]
+                wb.cells[(0, 1, 5)] = ('a', R, C, e)                                                 # E1 ...
+                wb.cells[(0, 5, 1)] = ('f', ('call', 'SUM', [('ref', (0, 1, R, 5, 4 + C))]))        # a reader of the whole spill
+                try:
+                    d = wb.to_dict()
+                except Exception:
+                    continue
+                case = {'workbook': {k_: (str(v) if isinstance(v, bookgen.Err) else v) for k_, v in d.items()}, 'stream': 'array-fit',
+                        'destination': [R, C], 'result': [h, w], 'form': form}
+                run.count(1, json.dumps(d, sort_keys=True, default=str), True, 'array-fit/%s' % form)
+                try:
+                    m, sol = bookrun.calc_dict(wb)
+                    base = bookrun.solution_values(wb, sol)
+                except Exception as ex:
+                    run.violation('array-fit template raised %s: %s' % (type(ex).__name__, str(ex)[:100]), case)
+                    continue
+                q = list(base)
+                req.append(wb.to_wire(q))
+                pend.append((wb, q, base, case))
+                dd = os.path.join(tmp, 'fit')
+                os.makedirs(dd, exist_ok=True)
+                try:
+                    m3, sol3 = bookrun.calc_xlsx(wb, dd)
+                    v3 = bookrun.solution_values(wb, sol3)
+                    diff = [a for a in base if base[a] != v3[a]]
+                    if diff:
+                        a = diff[0]
+                        run.violation('cell %s is %s through the dictionary and %s through the .xlsx file' % (
+                            wb.key(*a), bookrun.show(base[a]), bookrun.show(v3[a])), dict(case, cell=wb.key(*a)))
+                except Exception as ex:
+                    run.violation('the .xlsx loading path raised %s: %s' % (type(ex).__name__, str(ex)[:100]), case)
+                shutil.rmtree(dd, ignore_errors=True)
         # the exact witness of known finding cross-book-name, on the one-book-then-finish path
         wd = os.path.join(tmp, 'witness')
         os.makedirs(wd)
